@@ -18,6 +18,7 @@ func init() {
 			"that close always closes the descriptor (dropping the advisory lock) and Close waits for all three locks; and that the CLI's inspection commands open the database read-only. " +
 			"NOT decided: the kernel's flock/fcntl/mmap behaviour (trusted), lock timing, and that a store through a returned slice faults (a consequence of the read-only mapping under the trusted kernel). Round 3: the descriptor that carries the file lock is closed only by (*DB).close.",
 		Run: func(c *Ctx) {
+			ruleMappingForgottenOnlyWithUnmap(c, "C17.R8") // "closing releases the lock": a leaked mapping keeps the flock alive
 			ruleDataFileClosedOnlyByClose(c, "C17.R7") // the descriptor that carries the file lock is closed only by Close
 			c17R1(c, "C17.R1")
 			ruleFlockSibling(c, "C17.R2")
